@@ -28,6 +28,14 @@ type Ctx struct {
 	Replay []Sx // inputs to re-run instead of generating
 }
 
+// Pending notes the input about to be run in the file named by $QFH_PENDING, so that when the implementation dies in a
+// way recover() cannot catch (stack overflow, runtime fatal error, out of memory) the check still knows the input.
+func (c *Ctx) Pending(input Sx) {
+	if p := os.Getenv("QFH_PENDING"); p != "" {
+		_ = os.WriteFile(p, []byte(SxString(input)+"\n"), 0644)
+	}
+}
+
 // Emit records one case.
 func (c *Ctx) Emit(input Sx, obs Sx) {
 	c.count++
